@@ -450,3 +450,69 @@ fn optimiser_contract() {
         }
     }
 }
+
+// ---- C11: JSON round trip of whole states (premise P:serde-plain:* of the assumed serde-derive contract) ----
+/// compares two Debug renderings: every non-numeric token exactly, every number to 1e-12 relative
+fn debug_close(a: &str, b: &str) -> Result<(), String> {
+    fn toks(s: &str) -> Vec<String> {
+        let mut out = vec![]; let mut cur = String::new(); let mut num = false;
+        let cs: Vec<char> = s.chars().collect();
+        for (i, &c) in cs.iter().enumerate() {
+            let prev_alpha = i > 0 && (cs[i - 1].is_alphanumeric() || cs[i - 1] == '_');
+            let starts = (c.is_ascii_digit() || (c == '-' && i + 1 < cs.len() && cs[i + 1].is_ascii_digit())) && !prev_alpha;
+            let cont = num && (c.is_ascii_digit() || c == '.' || c == 'e' || c == 'E' || (c == '-' && (cs[i - 1] == 'e' || cs[i - 1] == 'E')));
+            if cont { cur.push(c); }
+            else if starts && !num { if !cur.is_empty() { out.push(cur.clone()); cur.clear(); } num = true; cur.push(c); }
+            else { if num { out.push(cur.clone()); cur.clear(); num = false; } cur.push(c); }
+        }
+        if !cur.is_empty() { out.push(cur); }
+        out
+    }
+    let (ta, tb) = (toks(a), toks(b));
+    if ta.len() != tb.len() { return Err(format!("different structure: {} vs {}", a, b)); }
+    for (x, y) in ta.iter().zip(tb.iter()) {
+        if x == y { continue; }
+        match (x.parse::<f64>(), y.parse::<f64>()) {
+            (Ok(p), Ok(q)) if (p - q).abs() <= 1e-12 * p.abs().max(q.abs()).max(1e-300) => {}
+            _ => return Err(format!("`{}` became `{}`", x, y)),
+        }
+    }
+    Ok(())
+}
+
+fn all_groups() -> Vec<(&'static str, packing::wallpaper::WallpaperGroup<'static>)> {
+    use packing::wallpaper::{get_wallpaper_group, WallpaperGroups::*};
+    vec![("p1", p1), ("p2", p2), ("p1m1", p1m1), ("p1g1", p1g1), ("p2mm", p2mm), ("p2mg", p2mg), ("p2gg", p2gg)]
+        .into_iter().map(|(n, g)| (n, get_wallpaper_group(g).unwrap())).collect()
+}
+
+fn roundtrip_one<T: State + serde::de::DeserializeOwned>(what: &str, st: &T, r: &mut Pcg64Mcg) {
+    for round in 0..40 {
+        if round > 0 { for b in st.generate_basis().iter_mut() { b.set_sampled(r, 0.6); } }
+        let json = serde_json::to_string(st).unwrap();
+        let back: T = match serde_json::from_str(&json) { Ok(x) => x, Err(e) => panic!("WITNESS {} parameters {:?}: the written JSON does not parse back: {}", what, st.generate_basis().iter().map(|b| b.get_value()).collect::<Vec<_>>(), e) };
+        let pars = st.generate_basis().iter().map(|b| b.get_value()).collect::<Vec<_>>();
+        if let Err(e) = debug_close(&format!("{:?}", st), &format!("{:?}", back)) { panic!("WITNESS {} parameters {:?}: after a JSON round trip {}", what, pars, e); }
+        assert!(st.total_shapes() == back.total_shapes(), "WITNESS {} parameters {:?}: {} shapes before and {} after a JSON round trip", what, pars, st.total_shapes(), back.total_shapes());
+        let ok = match (st.score(), back.score()) { (None, None) => true, (Some(p), Some(q)) => (p - q).abs() <= 1e-9 * p.abs().max(q.abs()).max(1e-300) || (p.is_nan() && q.is_nan()), _ => false };
+        assert!(ok, "WITNESS {} parameters {:?}: score {:?} before and {:?} after a JSON round trip", what, pars, st.score(), back.score());
+    }
+}
+
+/// P:serde-plain:* — a state written as JSON and read back is the same structure (same fields, same score, same copies)
+#[test]
+fn serde_roundtrip() {
+    use packing::{LJShape2, LineShape, MolecularShape2, PackedState, PotentialState};
+    let mut r = rng();
+    for (name, g) in all_groups().iter() {
+        for shape in [MolecularShape2::circle(), MolecularShape2::from_trimer(0.637556, 120., 1.)].iter() {
+            roundtrip_one(&format!("PackedState<MolecularShape2> {} {}", name, shape), &PackedState::from_group(shape.clone(), g).unwrap(), &mut r);
+        }
+        for shape in [LineShape::polygon(4).unwrap(), LineShape::from_radial("x", vec![1., 0.6, 1.2, 0.8, 1.]).unwrap()].iter() {
+            roundtrip_one(&format!("PackedState<LineShape> {} {}", name, shape), &PackedState::from_group(shape.clone(), g).unwrap(), &mut r);
+        }
+        for shape in [LJShape2::circle(), LJShape2::from_trimer(0.63, 120., 1.)].iter() {
+            roundtrip_one(&format!("PotentialState<LJShape2> {} {}", name, shape), &PotentialState::from_group(shape.clone(), g).unwrap(), &mut r);
+        }
+    }
+}
